@@ -9,6 +9,7 @@
 // error-controlled integrator returning after every internal step; the operand's value is logged at every step.
 #include "Simbody.h"
 #include "hcommon.h"
+#include <set>
 #include <algorithm>
 using namespace SimTK;
 
@@ -245,30 +246,139 @@ static void simCase(vh::Rng& g, bool big, int forceKind) {
     }
 }
 
-// Differentiate of an operand that supplies its own derivative (no approximation): finding F-C23a - realize(Acceleration)
-// calls ensureDerivativeIsRealized() with an invalid variable index and crashes.  Run in a child process.
-#include <unistd.h>
-#include <sys/wait.h>
-static void diffExactCase() {
+
+// ------------------------------------------------------------------ history stream with a CHANGING Variable source (round 2c)
+// One State, one run: every measure is read at every step; at a few steps a Measure::Variable the operand is built from is
+// changed (setValue on the advanced state) between two reads at the same time, then the run continues.  The records give the
+// Lean definitions the operand's TRUE history (computed here from the current inputs: the Variable's value, the time), so a
+// measure that keeps answering from a stale cache shows both as a predicate failure and as a model mismatch.
+static int g_varStreams = 0;
+static void variableStreamCase(vh::Rng& g, int srcKind, int which) {
+    static const char* kindName[] = {"variable", "scale_variable", "variable_plus_constant", "variable_minus_scaled_variable", "variable_plus_time", "scaled_variable_plus_sinusoid"};
+    MultibodySystem system; SimbodyMatterSubsystem matter(system); GeneralForceSubsystem forces(system);
+    Body::Rigid body(MassProperties(1.0, Vec3(0), Inertia(1)));
+    MobilizedBody::Pin pend(matter.updGround(), Transform(Vec3(0)), body, Transform(Vec3(0, 1, 0)));
+    Subsystem& sub = forces;
+    const double c = g.signedMag(0.3, 3), c2 = g.signedMag(0.2, 0.8), k0 = g.signedMag(0.1, 2), a = g.signedMag(0.3, 2), w = g.range(0.5, 2.5), ph = g.range(-3, 3);
+    double vcur = g.signedMag(0.2, 3); Vec3 v3cur(g.signedMag(0.2, 3), g.signedMag(0.2, 3), g.signedMag(0.2, 3));
+    Measure::Variable var(sub, Stage::Time, vcur);
+    Measure_<Vec3>::Variable var3(sub, Stage::Time, v3cur);
+    Measure::Time tm(sub); Measure::Constant kc(sub, k0); Measure::Sinusoid sn(sub, a, w, ph);
+    Measure::Scale scv(sub, c, var), sc2v(sub, c2, var);
+    Measure::Plus pvk(sub, var, kc), pvt(sub, var, tm), pss(sub, scv, sn); Measure::Minus mvs(sub, var, sc2v);
+    Measure operand = srcKind == 0 ? (Measure)var : srcKind == 1 ? (Measure)scv : srcKind == 2 ? (Measure)pvk : srcKind == 3 ? (Measure)mvs : srcKind == 4 ? (Measure)pvt : (Measure)pss;
+    const double h = g.range(0.01, 0.04);
+    const bool longDelay = g.coin(); const double delay = longDelay ? h * g.range(1.2, 4.5) : h * g.range(0.2, 0.9);
+    const int op = g.below(4);
+    Measure::Delay del(sub, operand, delay);
+    Measure::Extreme ext(sub, operand, (Measure::Extreme::Operation)op);
+    // (Differentiate is always taken of Variable+Time: Differentiate of an operand whose depends-on stage is Model - a pure
+    //  Variable/Constant tree - makes Integrator::initialize throw on the clean tree; demonstrated separately in diffVariableChild)
+    Measure::Differentiate dif(sub, pvt); dif.setForceUseApproximation(true);
+    const double ic = g.signedMag(0.1, 2); Measure::Constant icm(sub, ic);
+    Measure::Integrate integral(sub, operand, icm);
+    const bool scale3 = g.coin(); const double c3 = g.signedMag(0.3, 3);
+    Measure_<Vec3>::Scale sc3(sub, c3, var3);
+    Measure_<Vec3> operand3 = scale3 ? (Measure_<Vec3>)sc3 : (Measure_<Vec3>)var3;
+    Measure_<Vec3>::Delay del3(sub, operand3, delay);
+    State state = system.realizeTopology();
+    if (std::getenv("C23_DEBUG")) std::fprintf(stderr, "stage after realizeTopology: %s\n", state.getSystemStage().getName().c_str());
+    const double t0 = g.coin() ? 0.0 : g.signedMag(0.1, 2); state.setTime(t0); pend.setAngle(state, g.range(-1, 1));
+    if (std::getenv("C23_DEBUG")) { std::fprintf(stderr, "stage after set: %s\n", state.getSystemStage().getName().c_str()); State s2 = state; std::fprintf(stderr, "copy stage: %s\n", s2.getSystemStage().getName().c_str()); try { system.realize(state, Stage::Acceleration); std::fprintf(stderr, "direct realize ok\n"); } catch (const std::exception& e) { std::fprintf(stderr, "direct realize: %s\n", e.what()); } }
+    Integrator* integ = which == 0 ? (Integrator*)new RungeKutta3Integrator(system) : (Integrator*)new ExplicitEulerIntegrator(system);
+    integ->setFixedStepSize(h); integ->setAllowInterpolation(false); integ->setReturnEveryInternalStep(true);
+    const int nSteps = 12 + g.below(14);
+    integ->setFinalTime(t0 + h * (nSteps + 2)); integ->initialize(state);
+    struct E { int flag; double t, srcD, src, opv, del, extV, extT, dif, z, zdot; Vec3 src3, op3, d3; };
+    std::vector<E> L;
+    auto truth = [&](const State& s) { double t = s.getTime(); return srcKind == 0 ? vcur : srcKind == 1 ? c * vcur : srcKind == 2 ? vcur + k0 : srcKind == 3 ? vcur - c2 * vcur : srcKind == 4 ? vcur + t : c * vcur + sn.getValue(s); };
+    auto observe = [&](const State& s, int flag) {
+        system.realize(s, Stage::Acceleration);
+        E e; e.flag = flag; e.t = s.getTime(); e.srcD = vcur + s.getTime(); e.src = truth(s); e.opv = operand.getValue(s); e.del = del.getValue(s); e.extV = ext.getValue(s); e.extT = ext.getTimeOfExtremeValue(s);
+        e.dif = dif.getValue(s); e.z = integral.getValue(s); e.zdot = integral.getValue(s, 1);
+        e.src3 = scale3 ? Vec3(c3 * v3cur) : v3cur; e.op3 = operand3.getValue(s); e.d3 = del3.getValue(s);
+        L.push_back(e);
+    };
+    std::set<int> changeAt; for (int r = 0; r < 3; ++r) changeAt.insert(3 + g.below(nSteps - 4));
+    observe(integ->getAdvancedState(), 0);
+    int nChanges = 0;
+    for (int k = 1; k <= nSteps; ++k) {
+        integ->stepTo(t0 + h * (nSteps + 2));
+        if (changeAt.count(k)) {
+            observe(integ->getAdvancedState(), 1);                    // read ...
+            State& adv = integ->updAdvancedState();
+            vcur = g.signedMag(0.2, 3); v3cur = Vec3(g.signedMag(0.2, 3), g.signedMag(0.2, 3), g.signedMag(0.2, 3));
+            var.setValue(adv, vcur); var3.setValue(adv, v3cur); ++nChanges;        // ... change ...
+        }
+        observe(integ->getAdvancedState(), 0);                        // ... read (and this is the sample the step commits)
+    }
+    delete integ;
+    const size_t N = L.size() - 1;
+    const std::string kind = kindName[srcKind], tag = std::string("varstream.") + kind + (which == 0 ? ".rk3" : ".euler");
+    vh::D(tag); ++g_varStreams;
+    // One predicate-only record (the Lean history models are tied in simCase; here a read / change / read at the SAME time is part
+    // of the stream, for which the step-log conventions of those records are not defined).
+    vh::I("buf").d(0).emit(); std::puts("O sizes"); std::puts("O vals"); std::puts("O final");
+    // (1) the operand itself (arithmetic tree over the Variable) must reflect the current inputs at every read.  Finding on the clean
+    //     tree: Scale/Plus/Minus (Real and Vec3) cache their value with depends-on stage = max of the operands' = Model for a
+    //     Variable (Variable declares depends-on Model although setValue can change it any time), so after setValue they keep
+    //     returning the old value: one key for that root cause.  Kinds without such a node (the Variable itself, Variable+Time)
+    //     keep their own keys.
+    const bool staleProne = srcKind == 1 || srcKind == 2 || srcKind == 3 || srcKind == 5;
+    const std::string staleKey = "measure.arithmetic_of_variable.stale_after_setValue";
+    double stale = 0, stale3 = 0, sc = 1, zbad = 0;
+    for (auto& e : L) { stale = std::max(stale, std::fabs(e.opv - e.src)); sc = std::max(sc, std::fabs(e.src)); zbad = std::max(zbad, std::fabs(e.zdot - e.src)); for (int i = 0; i < 3; ++i) stale3 = std::max(stale3, std::fabs(e.op3[i] - e.src3[i])); }
+    vh::P("operand_reflects_current_inputs", staleProne ? staleKey : "varstream.operand." + kind + ".current", stale / sc, 8 * 2.2e-16);
+    vh::P("operand_reflects_current_inputs", scale3 ? staleKey : std::string("varstream.operand.vec3_variable.current"), stale3, 8 * 2.2e-16 * 10);
+    // (2) Integrate's derivative is the operand now
+    vh::P("integrand_reflects_current_inputs", staleProne ? staleKey : "varstream.integrate." + kind + ".zdot", zbad / sc, 8 * 2.2e-16);
+    // (3) Delay: once the source has not changed for delay + 3 steps, the delayed value is the source's value at t - delay computed
+    //     from the CURRENT Variable value (piecewise-constant kinds: that value itself; Variable+Time: value + (t - delay); both are
+    //     reproduced exactly by the buffer interpolation).  A Delay that keeps a value cached from before the change fails here.
+    std::vector<double> changeTimes; for (size_t k = 1; k <= N; ++k) if (L[k].flag == 1) changeTimes.push_back(L[k].t);
+    double dbad = 0, dbad3 = 0; int judged = 0;
+    for (size_t k = 1; k <= N; ++k) {
+        if (L[k].flag != 0) continue;
+        bool quiet = L[k].t - delay - 3 * h > L[0].t; for (double tc : changeTimes) if (tc <= L[k].t && tc >= L[k].t - delay - 3.001 * h) quiet = false;
+        if (!quiet) continue;
+        ++judged;
+        if (srcKind <= 4) { double expect = srcKind == 4 ? L[k].src - delay : L[k].src; dbad = std::max(dbad, std::fabs(L[k].del - expect) / sc); }
+        for (int i = 0; i < 3; ++i) dbad3 = std::max(dbad3, std::fabs(L[k].d3[i] - L[k].src3[i]));
+    }
+    if (judged) {
+        vh::D("varstream.delay_judged_after_change");
+        if (srcKind <= 4) vh::P("delay_follows_changed_variable", (srcKind >= 1 && srcKind <= 3) ? staleKey : "varstream.delay." + kind + ".after_change", dbad, 1e-9);
+        vh::P("delay_follows_changed_variable", scale3 ? staleKey : std::string("varstream.delay.vec3_variable.after_change"), dbad3, 1e-9);
+    }
+}
+
+// Differentiate of an operand that depends on no stage later than Model (a Measure::Variable, or arithmetic of Variables and
+// Constants): its auto-update variable is allocated with invalidates = operand.getDependsOnStage(0) = Model
+// (MeasureImplementation.h:1382), so Integrator::initialize() - which swaps in the auto-update values - drops the state below
+// Model and throws "Expected stage to be at least Model".  Forked child; value 1 = initialize failed.
+static void diffVariableChild() {
     std::fflush(stdout);
-    pid_t pid = fork(); int status = 0; bool crashed = false, bad = false;
+    pid_t pid = fork(); int status = 0; double bad = 1; std::string how = "fork_failed";
     if (pid == 0) {
+        std::fclose(stdout); alarm(10);
         try {
             MultibodySystem system; SimbodyMatterSubsystem matter(system); GeneralForceSubsystem forces(system);
             Body::Rigid body(MassProperties(1.0, Vec3(0), Inertia(1)));
             MobilizedBody::Pin pend(matter.updGround(), Transform(Vec3(0)), body, Transform(Vec3(0, 1, 0)));
-            Measure::Sinusoid sn(forces, 2.0, 5.0, 0.3);
-            Measure::Differentiate dif(forces, sn);
-            State state = system.realizeTopology(); state.setTime(0.25);
-            system.realize(state, Stage::Acceleration);
-            double v = dif.getValue(state), truth = 2.0 * 5.0 * std::cos(5.0 * 0.25 + 0.3);
-            _exit(std::fabs(v - truth) < 1e-12 ? 0 : 3);
-        } catch (...) { _exit(4); }
-    } else if (pid > 0) { waitpid(pid, &status, 0); crashed = WIFSIGNALED(status); bad = !crashed && WEXITSTATUS(status) != 0; }
-    vh::I("arith").d(1).d(0).d(0).d(0).d(1).d(0).emit();
-    vh::O("arith").d(0).d(0).d(-0.0).d(-0.0).d(0).d(0).d(0).emit();
-    vh::D(std::string("diffexact.") + (crashed ? "crash" : bad ? "wrong" : "ok"));
-    vh::P("differentiate_exact_operand", "measure.differentiate.exact_operand.crash", (crashed || bad) ? 1 : 0, 0);
+            Measure::Variable var(forces, Stage::Time, 1.5);
+            Measure::Differentiate dif(forces, var); dif.setForceUseApproximation(true);
+            State state = system.realizeTopology();
+            RungeKutta3Integrator integ(system); integ.setFixedStepSize(0.01); integ.initialize(state);
+            integ.stepTo(0.05); system.realize(integ.getAdvancedState(), Stage::Acceleration);
+            _exit(dif.getValue(integ.getAdvancedState()) == 0 ? 0 : 3);      // derivative of a constant-so-far variable is 0
+        } catch (const std::exception&) { _exit(2); }
+    } else if (pid > 0) {
+        waitpid(pid, &status, 0);
+        if (WIFSIGNALED(status)) how = "crashed"; else if (WEXITSTATUS(status) == 0) { how = "ok"; bad = 0; } else how = WEXITSTATUS(status) == 2 ? "threw" : "wrong_value";
+    }
+    vh::I("buf").d(0).emit(); std::puts("O sizes"); std::puts("O vals"); std::puts("O final");
+    vh::D("diffvariable." + how);
+    vh::P("differentiate_of_variable_usable", "measure.differentiate.variable_operand.integrator_init_fails", bad, 0);
 }
 
 static void replay() {
@@ -301,21 +411,21 @@ int main(int argc, char** argv) {
     vh::Rng g(args.seed * 7919 + 23);
     bool big = args.n > 200;
     diffExactCase();
+    diffVariableChild();
     g_simsJudged = 0;
     g_simsJudged = 0;
     for (int fk = 0; fk < 8; ++fk) simCase(g, big, fk);      // guaranteed: every integrator x {every-step, report grid}
+    if (const char* e = std::getenv("C23_KIND")) { variableStreamCase(g, std::atoi(e), 1); return 0; }
+    for (int sk = 0; sk < 6; ++sk) { variableStreamCase(g, sk, 1); variableStreamCase(g, sk, 0); }   // guaranteed: every source kind x {Euler, RK3}
     for (long k = 0; k < args.n; ++k) {
-        if (g.below(3) == 0) simCase(g, big, -1); else bufCase(g, 5 + g.below(big ? 200 : 60));
+        int r = g.below(12);
+        if (r == 0) variableStreamCase(g, g.below(6), g.below(2)); else if (r <= 4) simCase(g, big, -1); else bufCase(g, 5 + g.below(big ? 200 : 60));
     }
     // floor: a minimum number of simulations must have reached the result predicates (an always-throwing or never-stepping
     // regression must not pass vacuously)
     vh::I("buf").d(0).emit(); std::puts("O sizes"); std::puts("O vals"); std::puts("O final");
     vh::D("floor");
     vh::P("coverage_floor", "c23.floor.simulations_judged", 8 - std::min(g_simsJudged, 8), 0);
-    // floor: a minimum number of simulations must have reached the result predicates (an always-throwing or never-stepping
-    // regression must not pass vacuously)
-    vh::I("buf").d(0).emit(); std::puts("O sizes"); std::puts("O vals"); std::puts("O final");
-    vh::D("floor");
-    vh::P("coverage_floor", "c23.floor.simulations_judged", 8 - std::min(g_simsJudged, 8), 0);
+    vh::P("coverage_floor", "c23.floor.variable_streams_judged", 12 - std::min(g_varStreams, 12), 0);
     return 0;
 }
